@@ -92,6 +92,33 @@ def _dump(payload, sub):
         links.append(dump_to_path(out, **opts))
     else:
         links.append(dump_to_zip(out, **opts))
+    after = payload.get('after')
+    if after in ('delete_first', 'delete_last'):
+        # the flow goes on: a later step throws a dumped resource away (the dump describes what entered the dumper)
+        from dataflows import delete_resource
+        links.append(delete_resource(0 if after == 'delete_first' else -1))
+    elif after == 'lockstep':
+        # a later step reads all the dumped resources side by side, one row of each at a time (a merge / compare step)
+        def lockstep(package):
+            yield package.pkg
+            # exactly as many resources as the descriptor lists are requested - the resource iterator itself is only
+            # exhausted after the rows were read (asking for "one more resource" is what tells the upstream steps that
+            # the stream is over; a consumer that does that before reading any row is outside dataflows' streaming model)
+            outer = iter(package)
+            its = [iter(next(outer)) for _ in package.pkg.descriptor['resources']]
+            bufs = [[] for _ in its]
+            live = list(range(len(its)))
+            while live:
+                for i in list(live):
+                    try:
+                        bufs[i].append(next(its[i]))
+                    except StopIteration:
+                        live.remove(i)
+            for _ in outer:
+                pass
+            for b in bufs:
+                yield iter(b)
+        links.append(lockstep)
     flow = Flow(*links)
     dp, stats = flow.process()
     if payload.get('same_flow_twice') and target == 'path':
@@ -195,7 +222,7 @@ class C09(Prop):
     ASSUMPTIONS = ['number of data rows of a csv file = records parsed by the stdlib csv module minus the header; of a json file = length of the top-level array',
                    'package totals are compared with the sums over the resources recorded in the same written descriptor']
     REAL_VS_STUB = {'real': ['dataflows dumpers, csv/json writers, zipfile, the file system'], 'stub': ['ambient environment (TZ, umask, cwd, tempdir) set per dump']}
-    PROBES = ['zip-target', 'json-format', 'counters-renamed', 'counters-dotted', 'counter-disabled', 'filehash-in-path', 'empty-resource', 'multibyte-text', 'multibyte-text-in-descriptor', 'compact-descriptor', 'dumper-drops-invalid-rows', 're-dump-of-a-loaded-package', 'excel-format', 'second-dump-at-a-later-instant', 'earlier-dump-of-other-data-in-the-same-place', 'same-flow-object-dumps-twice']
+    PROBES = ['zip-target', 'json-format', 'counters-renamed', 'counters-dotted', 'counter-disabled', 'filehash-in-path', 'empty-resource', 'multibyte-text', 'multibyte-text-in-descriptor', 'compact-descriptor', 'dumper-drops-invalid-rows', 're-dump-of-a-loaded-package', 'excel-format', 'second-dump-at-a-later-instant', 'earlier-dump-of-other-data-in-the-same-place', 'same-flow-object-dumps-twice', 'a-later-step-deletes-a-dumped-resource', 'a-later-step-reads-the-dumped-resources-in-lockstep']
     TIERS = {'quick': dict(runs=700, wall=100, run_wall=300),
              'thorough': dict(runs=20000, wall=1700, run_wall=600)}
     SHRINK_FROZEN = ('fields',)
@@ -245,7 +272,8 @@ class C09(Prop):
             clock[1] = t1
             env2['tz'] = None
         return {'tables': tabs, 'empty': empty, 'opts': opts, 'corrupt': corrupt, 'redump': rng.random() < 0.3 and opts['format'] == 'csv', 'target': rng.choice(['path', 'path', 'zip']),
-                'title': rng.choice([None, None, 'plain', 'Données – 数据 \U0001F600']), 'clock': clock, 'env2': env2, 'prior': rng.random() < 0.25, 'same_flow_twice': rng.random() < 0.15}
+                'title': rng.choice([None, None, 'plain', 'Données – 数据 \U0001F600']), 'clock': clock, 'env2': env2, 'prior': rng.random() < 0.25, 'same_flow_twice': rng.random() < 0.15,
+                'after': rng.choice([None, None, None, None, 'delete_first', 'delete_last', 'lockstep', 'lockstep'])}
 
     def execute(self, sc, ctx):
         if not sc.get('tables'):
@@ -261,6 +289,10 @@ class C09(Prop):
             ctx.probe('json-format')
         if fmt == 'excel':
             ctx.probe('excel-format')
+        if sc.get('after') in ('delete_first', 'delete_last'):
+            ctx.probe('a-later-step-deletes-a-dumped-resource')
+        if sc.get('after') == 'lockstep' and len(sc['tables']) > 1:
+            ctx.probe('a-later-step-reads-the-dumped-resources-in-lockstep')
         if sc.get('same_flow_twice') and target == 'path':
             ctx.probe('same-flow-object-dumps-twice')
         if sc.get('prior') and any(len(t['rows']) > 1 for t in sc['tables']):
@@ -294,7 +326,7 @@ class C09(Prop):
             out = os.path.join(d, 'out' if target == 'path' else 'out.zip')
             r = ctx.subrun(_dump, {'tables': sc['tables'], 'empty': sc.get('empty'), 'opts': opts, 'target': target, 'out': out, 'env': env, 'corrupt': sc.get('corrupt'), 'title': sc.get('title'),
                                    'clock': (sc.get('clock') or [None, None])[n], 'prior': sc.get('prior'),
-                                   'same_flow_twice': sc.get('same_flow_twice')})
+                                   'same_flow_twice': sc.get('same_flow_twice'), 'after': sc.get('after')})
             if r['status'] != 'ok':
                 if n == 0:
                     ctx.discard('dump raises: %s' % json.dumps(r.get('exc'))[:300])
